@@ -70,11 +70,6 @@ theorem subrange_width (w w' : SpW) (a b : Int) (hw : w.wf) (h : w.subrange a b 
 theorem half_cases (n : Nat) :
     (n % 2 = 0 ∧ n = 2 * (n / 2)) ∨ (n % 2 = 1 ∧ n = 2 * (n / 2) + 1) := by omega
 
-/-- centre of the whole band (spec): for an even channel count the centre frequency is the centre of
-    channel `n/2`, half a channel beyond the middle of the band -/
-def bandCentre (w : SpW) : Rat :=
-  if w.n % 2 = 0 then w.centre - (w.sideband : Rat) * w.width / 2 else w.centre
-
 theorem castSub (k m : Nat) : (((k : Int) - (m : Int) : Int) : Rat) = (k : Rat) - (m : Rat) := by
   push_cast; rfl
 
@@ -153,15 +148,27 @@ theorem rangeList_unit : ∀ (k : Nat) (s e : Int), (e - s).toNat = k → 0 ≤ 
     have : (s + 1).toNat = s.toNat + 1 := by omega
     rw [this]
 
-/-- the range `[lo, hi)` picked by an optional unit-step preselect slice on an axis of length `n`
-    (spec side: `slice.indices(n)`) -/
-def selRange (n : Nat) : Option PreVal → Nat × Nat
-  | none => (0, n)
-  | some (.slice a b c) =>
-    match sliceIndices n a b c with
-    | some (s, e, _) => (s.toNat, e.toNat)
-    | none => (0, 0)
-  | some .other => (0, 0)
+theorem rangeAux_shift (st lo : Int) : ∀ (k : Nat) (x : Int),
+    (rangeAux st k x).map (· + lo) = rangeAux st k (x + lo) := by
+  intro k
+  induction k with
+  | zero => intro x; rfl
+  | succ k ih =>
+    intro x
+    simp only [rangeAux, List.map_cons, ih]
+    have : x + st + lo = x + lo + st := by omega
+    rw [this]
+
+/-- translating a range translates its bounds -/
+theorem rangeList_shift (s e st : Int) (lo : Nat) :
+    (rangeList s e st).map (· + (lo : Int)) = rangeList (s + lo) (e + lo) st := by
+  unfold rangeList
+  have : rangeLen (s + lo) (e + lo) st = rangeLen s e st := by
+    unfold rangeLen
+    have h1 : e + (lo : Int) - (s + lo) = e - s := by omega
+    have h2 : s + (lo : Int) - (e + lo) = s - e := by omega
+    rw [h1, h2]
+  rw [this, rangeAux_shift]
 
 theorem sliceIndices_unit (n : Nat) (a b c : Option Int) (hc : c = none ∨ c = some 1) :
     ∃ lo hi : Nat, lo ≤ n ∧ hi ≤ n ∧ sliceIndices n a b c = some ((lo : Int), (hi : Int), 1) := by
@@ -247,9 +254,6 @@ theorem opt_positions (n : Nat) (v : Option PreVal)
     simpa using unit_positions n a b c hc
 
 /-! ## the pieces of `openV4` -/
-
-/-- mid-point of stored dump `i` before any shift -/
-def rawT (c : Cfg) (i : Nat) : Rat := (c.sync + c.first) + (i : Rat) * c.intTime
 
 theorem rawTimestamps_getD (c : Cfg) (i : Nat) (h : i < c.T) :
     (rawTimestamps c).getD i default = rawT c i := by
@@ -344,9 +348,6 @@ theorem shiftTimestamps_spec (c : Cfg) (ts1 ts3 : List Rat) (off : Rat)
       rw [← h1, ← h2]
       rfl
 
-/-- the whole-band spectral window of a v4 data set -/
-def spwWhole (c : Cfg) : SpW := SpW.new c.centre (c.bandwidth / (c.F : Rat)) c.F 1 none
-
 theorem spwWhole_wf (c : Cfg) (hF : 0 < c.F) : (spwWhole c).wf := new_wf_none _ _ _ _ hF
 
 theorem spwWhole_freq (c : Cfg) (hF : 0 < c.F) (k : Nat) :
@@ -389,7 +390,11 @@ theorem openSpw_spec (c : Cfg) (p : Preselect) (w : SpW) (hF : 0 < c.F)
 
 theorem getD_map_range' {α} (f : Nat → α) (lo m i : Nat) (d : α) (h : i < m) :
     ((List.range' lo m).map f).getD i d = f (lo + i) := by
-  simp [List.getD, List.getElem?_map, List.getElem?_range', h]
+  simp [List.getD, h]
+
+theorem getD_range' (lo m i d : Nat) (h : i < m) : (List.range' lo m).getD i d = lo + i := by
+  have := getD_map_range' id lo m i d h
+  simpa using this
 
 /-- everything `openV4` returns, in closed form -/
 theorem openV4_spec (c : Cfg) (p : Preselect) (o : Opened) (hF : 0 < c.F) (h : openV4 c p = .ok o) :
@@ -460,5 +465,201 @@ theorem openV4_spec (c : Cfg) (p : Preselect) (o : Opened) (hF : 0 < c.F) (h : o
           have : lo + (hi - lo - 1) = hi - 1 := by omega
           rw [this]
           grind
+
+/-! ## later selections on a preselected axis -/
+
+theorem normList_ofNat (n : Nat) : ∀ (ks : List Nat), (∀ k ∈ ks, k < n) →
+    normList n (ks.map Int.ofNat) = .ok ks := by
+  intro ks
+  induction ks with
+  | nil => intro _; rfl
+  | cons k t ih =>
+    intro h
+    have hk : k < n := h k (by simp)
+    have ht := ih (fun x hx => h x (by simp [hx]))
+    have : (0 : Int) ≤ Int.ofNat k ∧ Int.ofNat k < (n : Int) := by
+      simp only [Int.ofNat_eq_natCast]; omega
+    simp only [List.map_cons, normList, normInt, ht, this, bind, Except.bind, pure, Except.pure]
+    simp
+
+/-- `select(dumps=[k...])` keeps exactly the listed positions, in increasing order -/
+theorem keepPositions_list (n : Nat) (ks : List Nat) (h : ∀ k ∈ ks, k < n) :
+    keepPositions n (some (.list (ks.map Int.ofNat)))
+      = .ok ((List.range n).filter fun i => ks.contains i) := by
+  simp [keepPositions, Ix.resolve, normList_ofNat n ks h, bind, Except.bind, pure, Except.pure]
+
+theorem keepPositions_lt (n : Nat) (σ : Option Ix) (ks : List Nat) (h : keepPositions n σ = .ok ks) :
+    (∀ k ∈ ks, k < n) ∧ (List.range n).filter (fun i => ks.contains i) = ks := by
+  cases σ with
+  | none =>
+    simp only [keepPositions] at h
+    injection h with h
+    subst h
+    constructor
+    · intro k hk; simpa using hk
+    · apply List.filter_eq_self.mpr
+      intro a ha; simpa using ha
+  | some ix =>
+    simp only [keepPositions, bind, Except.bind, pure, Except.pure] at h
+    cases hr : ix.resolve n with
+    | error e => simp [hr] at h
+    | ok s =>
+      simp only [hr] at h
+      injection h with h
+      subst h
+      constructor
+      · intro k hk
+        have := (List.mem_filter.mp hk).1
+        simpa using this
+      · apply List.filter_congr
+        intro a ha
+        simp only [List.contains_eq_mem, List.mem_filter, ha, true_and]
+        simp
+
+/-- shifting the kept positions of a sub-axis `[lo, lo+m)` into the whole axis of length `n` -/
+theorem filter_shift (n lo m : Nat) (ks : List Nat) (hm : lo + m ≤ n) (hk : ∀ k ∈ ks, k < m) :
+    (List.range n).filter (fun i => (ks.map (lo + ·)).contains i)
+      = ((List.range m).filter fun i => ks.contains i).map (lo + ·) := by
+  obtain ⟨r, rfl⟩ : ∃ r, n = lo + (m + r) := ⟨n - lo - m, by omega⟩
+  rw [List.range_add, List.range_add, List.filter_append, List.map_append, List.filter_append]
+  have h1 : (List.range lo).filter (fun i => (ks.map (lo + ·)).contains i) = [] := by
+    apply List.filter_eq_nil_iff.mpr
+    intro a ha
+    simp only [List.mem_range] at ha
+    simp only [List.contains_eq_mem, List.mem_map, decide_eq_true_eq, not_exists, not_and]
+    intro x _ ; omega
+  have h3 : ((List.range r).map (m + ·) |>.map (lo + ·)).filter (fun i => (ks.map (lo + ·)).contains i) = [] := by
+    apply List.filter_eq_nil_iff.mpr
+    intro a ha
+    simp only [List.map_map, List.mem_map, List.mem_range, Function.comp] at ha
+    obtain ⟨y, _, rfl⟩ := ha
+    simp only [List.contains_eq_mem, List.mem_map, decide_eq_true_eq, not_exists, not_and]
+    intro x hx
+    have := hk x hx
+    omega
+  rw [h1, h3, List.nil_append, List.append_nil, List.filter_map]
+  congr 1
+  apply List.filter_congr
+  intro a _
+  simp [Function.comp]
+
+/-- kept positions of a sub-axis, re-expressed on the whole axis -/
+theorem keepPositions_shift (n lo m : Nat) (σ : Option Ix) (ks : List Nat) (hm : lo + m ≤ n)
+    (h : keepPositions m σ = .ok ks) :
+    keepPositions n (some (.list ((ks.map (lo + ·)).map Int.ofNat))) = .ok (ks.map (lo + ·)) := by
+  obtain ⟨hlt, hfix⟩ := keepPositions_lt m σ ks h
+  rw [keepPositions_list n (ks.map (lo + ·))]
+  · rw [filter_shift n lo m ks hm hlt, hfix]
+  · intro k hk
+    simp only [List.mem_map] at hk
+    obtain ⟨x, hx, rfl⟩ := hk
+    have := hlt x hx
+    omega
+
+theorem selRange_none (n : Nat) : selRange n none = (0, n) := rfl
+
+/-- Observables of "open with preselect, then select σ" and of "open whole, then select σ shifted into
+    the whole axes" coincide when both openings made the same workaround decision. -/
+theorem observe_shift (c : Cfg) (p : Preselect) (P W : Opened) (hF : 0 < c.F)
+    (hP : openV4 c p = .ok P) (hW : openV4 c {} = .ok W) (hsame : P.timeOffset = W.timeOffset)
+    (σd σc : Option Ix) (kd kc : List Nat)
+    (hkd : keepPositions P.ts.length σd = .ok kd) (hkc : keepPositions P.spw.n σc = .ok kc) :
+    P.observe σd σc
+      = W.observe (some (.list ((kd.map ((selRange c.T p.dumps).1 + ·)).map Int.ofNat)))
+                  (some (.list ((kc.map ((selRange c.F p.channels).1 + ·)).map Int.ofNat))) := by
+  obtain ⟨_, p1, p2, p3, p4, pdb, pcb, _, pts, _, _, pn, _, _, pfreq⟩ := openV4_spec c p P hF hP
+  obtain ⟨_, _, _, _, _, wdb, wcb, _, wts, _, _, wn, _, _, wfreq⟩ := openV4_spec c {} W hF hW
+  simp only [selRange_none, Nat.sub_zero] at wdb wcb wts wn wfreq
+  generalize hlo : (selRange c.T p.dumps).1 = lo at *
+  generalize hhi : (selRange c.T p.dumps).2 = hi at *
+  generalize hclo : (selRange c.F p.channels).1 = clo at *
+  generalize hchi : (selRange c.F p.channels).2 = chi at *
+  have hPlen : P.ts.length = hi - lo := by rw [pts]; simp
+  have hWlen : W.ts.length = c.T := by rw [wts]; simp
+  have hd := keepPositions_shift c.T lo (hi - lo) σd kd (by omega) (by rw [← hPlen]; exact hkd)
+  have hc := keepPositions_shift c.F clo (chi - clo) σc kc (by omega) (by rw [← pn]; exact hkc)
+  obtain ⟨hkdlt, _⟩ := keepPositions_lt _ _ _ hkd
+  obtain ⟨hkclt, _⟩ := keepPositions_lt _ _ _ hkc
+  rw [hPlen] at hkdlt
+  rw [pn] at hkclt
+  simp only [Opened.observe, hkd, hkc, hWlen, wn, hd, hc, bind, Except.bind, pure, Except.pure]
+  simp only [List.map_map]
+  congr 2
+  · apply List.map_congr_left
+    intro i hi'
+    have := hkdlt i hi'
+    simp only [Function.comp, pts, wts]
+    rw [getD_map_range' _ _ _ _ _ this, getD_map_range' _ _ _ _ _ (by omega), hsame]
+    simp
+  · apply List.map_congr_left
+    intro k _
+    simp only [Function.comp, pfreq, wfreq]
+    simp
+  · apply List.map_congr_left
+    intro i hi'
+    have := hkdlt i hi'
+    simp only [Function.comp, pdb, wdb]
+    rw [getD_range' _ _ _ _ this, getD_range' _ _ _ _ (by omega)]
+    omega
+  · apply List.map_congr_left
+    intro k hk'
+    have := hkclt k hk'
+    simp only [Function.comp, pcb, wcb]
+    rw [getD_range' _ _ _ _ this, getD_range' _ _ _ _ (by omega)]
+    omega
+
+theorem keepPositions_unit (n : Nat) (v : Option PreVal)
+    (hv : ∀ x, v = some x → ∃ a b c, x = .slice a b c ∧ (c = none ∨ c = some 1)) :
+    keepPositions n (toIx v) = .ok (List.range' (selRange n v).1 ((selRange n v).2 - (selRange n v).1)) := by
+  cases v with
+  | none => simp [toIx, keepPositions, selRange, List.range_eq_range']
+  | some x =>
+    obtain ⟨a, b, c, rfl, hc⟩ := hv x rfl
+    obtain ⟨hpos, _, h2⟩ := unit_positions n a b c hc
+    generalize hlo : (selRange n (some (PreVal.slice a b c))).1 = lo at *
+    generalize hhi : (selRange n (some (PreVal.slice a b c))).2 = hi at *
+    simp only [PreVal.positions] at hpos
+    cases hsl : sliceList n a b c with
+    | none => simp [hsl] at hpos
+    | some l =>
+      simp only [hsl] at hpos
+      injection hpos with hpos
+      simp only [toIx, keepPositions, Ix.resolve, hsl, hpos, bind, Except.bind, pure, Except.pure]
+      by_cases hle : lo ≤ hi
+      · have := filter_shift n lo (hi - lo) (List.range (hi - lo)) (by omega) (by intro k hk; simpa using hk)
+        rw [List.range'_eq_map_range]
+        rw [this]
+        congr 2
+        apply List.filter_eq_self.mpr
+        intro a ha; simpa using ha
+      · have : hi - lo = 0 := by omega
+        simp [this]
+
+theorem observe_congr (o : Opened) (σd σc σd' σc' : Option Ix)
+    (hd : keepPositions o.ts.length σd = keepPositions o.ts.length σd')
+    (hc : keepPositions o.spw.n σc = keepPositions o.spw.n σc') :
+    o.observe σd σc = o.observe σd' σc' := by
+  simp only [Opened.observe, hd, hc]
+
+theorem keepPositions_range_shift (n lo m : Nat) (h : lo + m ≤ n) :
+    keepPositions n (some (.list (((List.range m).map (lo + ·)).map Int.ofNat))) = .ok (List.range' lo m) := by
+  rw [keepPositions_shift n lo m none (List.range m) h rfl, List.range'_eq_map_range]
+
+/-- "open with preselect" shows what "open whole, then select the same ranges" shows -/
+theorem observe_same_ranges (c : Cfg) (p : Preselect) (P W : Opened) (hF : 0 < c.F)
+    (hP : openV4 c p = .ok P) (hW : openV4 c {} = .ok W) (hsame : P.timeOffset = W.timeOffset) :
+    P.observe none none = W.observe (toIx p.dumps) (toIx p.channels) := by
+  obtain ⟨hv, d1, d2, c1, c2, _, _, _, pts, _, _, pn, _, _, _⟩ := openV4_spec c p P hF hP
+  obtain ⟨_, _, _, _, _, _, _, _, wts, _, _, wn, _, _, _⟩ := openV4_spec c {} W hF hW
+  obtain ⟨_, vd, vc⟩ := validate_ok p hv
+  have hPlen : P.ts.length = (selRange c.T p.dumps).2 - (selRange c.T p.dumps).1 := by rw [pts]; simp
+  have hWlen : W.ts.length = c.T := by rw [wts]; simp [selRange_none]
+  have hWn : W.spw.n = c.F := by rw [wn]; simp [selRange_none]
+  rw [observe_shift c p P W hF hP hW hsame none none _ _ rfl rfl]
+  apply observe_congr
+  · rw [hWlen, keepPositions_unit c.T p.dumps vd, hPlen]
+    exact keepPositions_range_shift _ _ _ (by omega)
+  · rw [hWn, keepPositions_unit c.F p.channels vc, pn]
+    exact keepPositions_range_shift _ _ _ (by omega)
 
 end TimeFreqL
